@@ -57,7 +57,8 @@ def interrupted_trainings(seed, n_lines, args, points, parallel=4, tag='intr'):
     sem = threading.Semaphore(parallel)
     def one(i):
         with sem:
-            at = T * (0.08 + 0.9 * (i + 0.5) / points)
+            # spread beyond the reference duration as well: on a loaded machine the interrupted runs are slower than the reference run was
+            at = T * (0.08 + 1.6 * (i + 0.5) / points)
             o = _train(nm(i), tf, args, kill_after=at)
             o['at'] = at
             o['saved'] = os.path.exists(os.path.join(o['path'], 'Grammar', 'grammar.txt'))
